@@ -1,5 +1,6 @@
 pub mod query;
 pub mod readq;
+pub mod refuse;
 pub mod rt;
 pub mod rtree;
 pub mod sched;
